@@ -24,10 +24,22 @@ RULE = (
     "for old-style Sequence, new-style Sequence and new-style sequences backed by a SequenceCollection (SeqDataView); "
     "plus exhaustive (start,stop,step) triples applied to every distinct view of bounded depth of a short DNA string "
     "(quick: L<=3 on views of <=1 slice, L=4 on the full view, bounds within +-1 of the ends, steps up to +-3; thorough: L<=6 on views of <=1 slice, L<=4 on views of 2 slices). Oracle = the same chain on a Python str with a "
-    "17-symbol IUPAC complement table and a parallel list of parent indices. A step is non-trivial when it is "
+    "17-symbol IUPAC complement table and a parallel list of parent indices. The sequence of a chain is built through "
+    "a random one of the accepted input forms (str, bytes, tuple, list, SeqView, another Sequence, ArraySequence; via "
+    "make_seq, moltype.make_seq or the class constructor; offset given to the data or to the constructor), and a "
+    "'forms' sweep builds the same string through every form x with/without annotation_offset and demands the model's "
+    "str/coordinates/offset, the rich dict of the str form, and a fixed slice/rc chain. After every operation the view "
+    "operated on is read again, and after construction and at chain end every object the sequence was derived from "
+    "(source sequence, original and reverse-complemented collection) is re-read through fresh accessors against its "
+    "model. 'collections' histories (old and new style, 2-7 operations among rc, take_seqs, rename_seqs, "
+    "to_rna/to_dna, degap, copy/deepcopy, add_seqs, get_seq(..).rc()/[slice], each applied to any collection alive so "
+    "far) compare the result with a dict-of-strings model and then re-read EVERY collection alive before the "
+    "operation. A step is non-trivial when it is "
     "applied to a view (>=1 earlier operation) and the chain so far contains a negative step, an out-of-range bound "
     "or |step|>1; distinct = (implementation, nucleic/other, direction x stride x extent class of the view sliced, "
-    "operation with start/stop clamp class and step class)."
+    "operation with start/stop clamp class and step class); for forms (implementation, input form, offset or not, "
+    "nucleic/other); for collection histories of >=2 operations (implementation, operation, orientation state of "
+    "the collection operated on)."
 )
 LEVEL_TEXT = (
     "After every step of every generated chain str/len/iteration/int indexing/bytes/array and parent_coordinates "
@@ -36,7 +48,9 @@ LEVEL_TEXT = (
     "chain end a seeded 30% (quick) / 50% (thorough) of ~100 calls of ~80 read-only methods are compared (value, "
     "exception type, and that the view is left unchanged) with the same call on a fresh sequence built from the "
     "view's string. The bounded sub-space (all slice triples on all shallow views of short strings) is enumerated "
-    "completely; beyond it sampled."
+    "completely; beyond it sampled. Derivation never alters a source: the view operated on, the sequence or "
+    "collection a sequence was taken from, and every collection alive before a collection operation are re-read "
+    "after the operation; every accepted way of constructing a sequence gives the same observations."
 )
 LEVEL_NOTE = (
     "held = held on the executions listed in the evidence; trusted: Python str/list slicing, a 17-symbol IUPAC "
@@ -48,6 +62,8 @@ ASSUMPTIONS = [
     "a sequence built by make_seq from a plain string answers its read-only methods correctly (parity reference)",
     "for |step|>1 only slice semantics are demanded of parent coordinates (indices inside [start,stop), leading end tight, ceil((stop-start)/|step|)==len)",
     "parent coordinates of empty views are not checked (zero slices drop the seqid by design)",
+    "members of a derived collection may be views or detached copies: only (0, len, +1), or (0, len, -1) when an ancestor collection was reverse complemented, is demanded of their coordinates",
+    "input forms the constructors reject (numpy arrays) are counted, not judged; old-style make_seq returning an existing sequence unchanged is documented",
 ]
 EXHAUSTIVE = {"quick": False, "thorough": False}
 TIMEOUT = {"quick": 2400, "thorough": 14400}
